@@ -1,11 +1,71 @@
-//! protobuf side of the generated-type runtime (filled in with the protobuf checks)
+//! protobuf side of the generated-type runtime: decode / encode / encoded_len / merge / length-delimited
+//! framing of generated messages. Everything moves bytes; the specification judges them.
+use std::panic::{catch_unwind, AssertUnwindSafe};
+
+use pilota::prost::Message;
 use serde_json::{json, Value};
+use vh::protos::panic_msg;
 
 use crate::rt::Ops;
 
-pub fn exec<T: pilota::prost::Message + Default + PartialEq + std::fmt::Debug>(_req: &Value) -> Value {
-    json!({"ok": false, "err": "harness: protobuf ops not built yet", "tool_error": true})
+fn bytes_of(v: &Value) -> Vec<u8> {
+    vh::tree::json_bytes(v)
 }
-pub fn ops<T: pilota::prost::Message + Default + PartialEq + std::fmt::Debug>() -> Ops {
+
+/// op "roundtrip": x = decode(input); out = encode(x); len = encoded_len(x); decode(out) == x
+/// op "merge":     x = decode(a); x.merge(b); out = encode(x)
+/// op "decode":    outcome only
+/// op "ld":        decode_length_delimited(input)
+pub fn exec<T: Message + Default + PartialEq + std::fmt::Debug>(req: &Value) -> Value {
+    let op = req["op"].as_str().unwrap_or("roundtrip").to_string();
+    let r = catch_unwind(AssertUnwindSafe(|| -> Value {
+        let x: T = match op.as_str() {
+            "merge" => {
+                let a = bytes_of(&req["a"]);
+                let b = bytes_of(&req["b"]);
+                let mut x = match T::decode(&a[..]) {
+                    Ok(x) => x,
+                    Err(e) => return json!({"ok": false, "err": format!("err: {e}")}),
+                };
+                if let Err(e) = x.merge(&b[..]) {
+                    return json!({"ok": false, "err": format!("err: {e}")});
+                }
+                x
+            }
+            "ld" => {
+                let input = bytes_of(&req["input"]);
+                match T::decode_length_delimited(&input[..]) {
+                    Ok(x) => x,
+                    Err(e) => return json!({"ok": false, "err": format!("err: {e}")}),
+                }
+            }
+            _ => {
+                let input = bytes_of(&req["input"]);
+                match T::decode(&input[..]) {
+                    Ok(x) => x,
+                    Err(e) => return json!({"ok": false, "err": format!("err: {e}")}),
+                }
+            }
+        };
+        if op == "decode" {
+            return json!({"ok": true});
+        }
+        let len = x.encoded_len();
+        let out = x.encode_to_vec();
+        let mut buf = Vec::new();
+        let ld_ok = x.encode_length_delimited(&mut buf).is_ok() && buf.ends_with(&out);
+        let again = match T::decode(&out[..]) {
+            Ok(y) => y == x,
+            Err(_) => false,
+        };
+        let dbg = if req["want_debug"].as_bool().unwrap_or(false) { format!("{:?}", x) } else { String::new() };
+        json!({"ok": true, "out": out, "size": len, "redecode_eq": again, "ld_ok": ld_ok, "dbg": dbg})
+    }));
+    match r {
+        Ok(v) => v,
+        Err(e) => json!({"ok": false, "err": panic_msg(e), "panic": true}),
+    }
+}
+pub fn ops<T: Message + Default + PartialEq + std::fmt::Debug>() -> Ops {
     Ops { exec: exec::<T>, default: None }
 }
